@@ -713,26 +713,50 @@ func runC10(c *Ctx) {
 	r.Rule("R2", "penalty := penalty + charge - (Now - last); stored 0 on the penalty < 0 branch; last := Now on every path; the two fields are written only here and in the constructor")
 	r.Rule("R3", "the function returns the charge exactly on the penalty > 10*Second edge, 0 otherwise")
 	r.Rule("R4", "write() calls the rate limiter with len of the string it then writes, waits for exactly the returned value iff it is non-zero, before the socket write; every timer/sleep in write() is control-dependent on Config.Flood being false")
-	rl := c.Func(c.Client, "(*Conn).rateLimit")
-	r.Anchor("R1", "(*Conn).rateLimit", rl != nil)
+	// the rate limiter: the client method taking the line length and returning a time.Duration that reads the clock
+	// (by shape, so that renaming it or moving it onto an embedded struct does not lose it)
+	var rl *ssa.Function
+	for _, fn := range c.clientFuncs() {
+		sig := fn.Signature
+		if fn.Synthetic != "" || sig.Recv() == nil || sig.Params().Len() != 1 || sig.Results().Len() != 1 || len(fn.Blocks) == 0 {
+			continue
+		}
+		if !isIntType(sig.Params().At(0).Type()) || typeString(sig.Results().At(0).Type()) != "time.Duration" {
+			continue
+		}
+		now := false
+		funcInstrs(fn, func(in ssa.Instruction) {
+			if cc := callOf(in); cc != nil {
+				switch calleeName(cc) {
+				case "time.Now", "time.Since":
+					now = true
+				}
+			}
+		})
+		if now {
+			rl = fn
+		}
+	}
+	r.Anchor("R1", "rate limiter (method(int) time.Duration reading the clock)", rl != nil)
 	if rl == nil {
 		return
 	}
 	r.Funcs[c.FuncKey(rl)] = true
-	bad := c.FieldVar(c.Client, "Conn", "badness")
-	last := c.FieldVar(c.Client, "Conn", "lastsent")
-	// locate penalty/timestamp fields by type if renamed
-	if bad == nil || last == nil {
-		for i := 0; i < a.ConnS.NumFields(); i++ {
-			f := a.ConnS.Field(i)
-			switch typeString(f.Type()) {
-			case "time.Duration":
-				bad = f
-			case "time.Time":
-				last = f
+	// penalty and timestamp: the time.Duration and time.Time fields of the receiver that the limiter stores
+	var bad, last *types.Var
+	funcInstrs(rl, func(in ssa.Instruction) {
+		if st, ok := in.(*ssa.Store); ok {
+			if fv, _ := fieldOf(st.Addr); fv != nil {
+				switch typeString(fv.Type()) {
+				case "time.Duration":
+					bad = fv
+				case "time.Time":
+					last = fv
+				}
 			}
 		}
-	}
+	})
+	_ = a
 	r.Anchor("R2", "penalty (time.Duration) and timestamp (time.Time) fields of Conn", bad != nil && last != nil)
 	if bad == nil || last == nil {
 		return
@@ -915,6 +939,12 @@ func runC10(c *Ctx) {
 			wsCall = in
 		}
 	})
+	if wsCall == nil {
+		// the socket write may sit in a helper write calls once with its line: that call is the write event
+		if _, via := c.writerLeaf(wf); via != nil {
+			wsCall = via
+		}
+	}
 	// the function that calls the rate limiter: write itself, or a helper write calls once
 	hf := wf
 	var helperSite *ssa.Call
